@@ -68,6 +68,11 @@ type Pair struct {
 	MaxNom uint32
 	RenomLost bool            // a renomination request or the response to one was dropped
 	renomTx   map[[12]byte]bool
+	// Victim: the first VictimLeft Binding requests sent by side Victim[0] from its endpoint Victim[1] to the
+	// peer's endpoint Victim[2] are lost (well inside the retry budget): that pair becomes valid on the peer's
+	// side long before it does on this side.
+	Victim     *[3]int
+	VictimLeft int
 }
 
 func (p *Pair) eps(side int) []Endpoint {
@@ -137,6 +142,13 @@ func (p *Pair) collect(side int) {
 		if !ok {
 			p.Stats["dropped_unreachable"]++
 			continue
+		}
+		if p.Victim != nil && p.VictimLeft > 0 && side == p.Victim[0] && fromEP == p.Victim[1] && toEP == p.Victim[2] && isStun(w.raw) {
+			if m, err := s.Decode(w.raw); err == nil && m.Class == 0 {
+				p.VictimLeft--
+				p.Stats["dropped_victim_request"]++
+				continue
+			}
 		}
 		if isStun(w.raw) {
 			if m, err := s.Decode(w.raw); err == nil && m.Class == 0 && m.HasNom {
@@ -311,6 +323,9 @@ func (p *Pair) AddLocals(side int)        { p.addLocals(side) }
 func (p *Pair) Signal(to, base int)       { p.signal(to, base) }
 func (p *Pair) DeliverAll()               { p.deliverAll() }
 func (p *Pair) InFlight() int             { return len(p.net) }
+
+// SetVictim arms the selective loss (see Pair.Victim).
+func (p *Pair) SetVictim(side, fromEP, toEP, n int) { p.Victim = &[3]int{side, fromEP, toEP}; p.VictimLeft = n }
 func (p *Pair) SelToks(side int) []string { return selToks(p.S[side]) }
 
 func (p *Pair) MaxOp() time.Duration {
@@ -374,6 +389,18 @@ func (p *Pair) Renominate() (int, int, Addr, bool) {
 			return 0, 0, Addr{}, false
 		}
 		pr := cands[p.R.Intn(len(cands))]
+		if p.Victim != nil && side != p.Victim[0] && p.R.Intn(4) != 0 {
+			// prefer the pair whose reverse checks were lost
+			want := p.eps(side)[p.Victim[2]]
+			peer := p.eps(1 - side)[p.Victim[1]].Public
+			for _, c := range cands {
+				if h, ok := s.localH[c.Local.ID()]; ok && h == want.H && c.Remote.Port() == peer.Port {
+					if ip, err := netip.ParseAddr(c.Remote.Address()); err == nil && AddrOf(netip.AddrPortFrom(ip, uint16(c.Remote.Port()))).IP.Cmp(peer.IP) == 0 {
+						pr = c
+					}
+				}
+			}
+		}
 		lh, ok := s.localH[pr.Local.ID()]
 		if !ok {
 			return 0, 0, Addr{}, false
